@@ -79,6 +79,32 @@ func checkC17(r *mon.Run) {
 	r.Assume("oracle: internal/refguid (no fmt verbs shared with the library) and unicode/utf16 from the standard library")
 	suiteGUIDs := map[string]bool{}
 	gs := c17GUIDs(r)
+	// What StringToGUID returns belongs to the caller: changing it must not change what the same
+	// text means afterwards, nor the library's own definitions that were made from that text.
+	for _, t := range []string{"8be4df61-93ca-11d2-aa0d-00e098032b8c", "d719b2cb-3d3a-4596-a3bc-dad00e67656f", "4a67b082-0a4c-41cf-b6c7-440b29bb8c4f", "8BE4DF61-93CA-11D2-AA0D-00E098032B8C", "12345678-9abc-def0-1234-56789abcdef0"} {
+		want := strings.ToLower(t)
+		for rep := 0; rep < 3; rep++ {
+			g := util.StringToGUID(t)
+			if g == nil || g.Format() != want {
+				r.Violation("C17|guid|parse-after-caller-changed-earlier-result", fmt.Sprintf("StringToGUID(%q) = %v after an earlier result of the same call was modified by its owner", t, g), map[string]any{"text": t})
+				break
+			}
+			g.Data1 ^= 0xdeadbeef
+			g.Data4[7] ^= 0xff
+		}
+		r.Eval(1)
+	}
+	for _, v := range []efivar.Efivar{efivar.PK, efivar.Db, efivar.LoaderEntrySelected, efivar.BootOrder} {
+		if v.GUID == nil {
+			continue
+		}
+		if got, want := v.GUID.Format(), fromLib(*v.GUID).Text(); got != want {
+			r.Violation("C17|guid|format", fmt.Sprintf("predefined %s: Format()=%q want %q", v.Name, got, want), map[string]any{"name": v.Name})
+		}
+	}
+	if efivar.PK.GUID.Format() != "8be4df61-93ca-11d2-aa0d-00e098032b8c" || efivar.Db.GUID.Format() != "d719b2cb-3d3a-4596-a3bc-dad00e67656f" {
+		r.Violation("C17|guid|predefined-definition-changed", fmt.Sprintf("the vendor GUIDs of the predefined variables read %s / %s after callers modified their own parse results", efivar.PK.GUID.Format(), efivar.Db.GUID.Format()), nil)
+	}
 	// Texts that are not GUIDs, converted before anything else: whatever they return, the value
 	// returned must format as its own fields say, and must not change how any GUID formats later.
 	c17HostileTexts(r)
